@@ -52,6 +52,13 @@ CLAIMED["C17"] = dict(
    ref="DESIGN.md §4 C17")
 
 
+CLAIMED["C10"] = dict(
+   text="Abstract interpretation of every text consumer and every bounded writer in lib/ and src/, covering all byte strings and all buffer sizes by abstraction rather than by samples: (RF4) a headroom dataflow over the CFG of each function that advances a `const char *` proves that a cursor which stepped over a byte not known to be non-NUL is never dereferenced, advanced again, passed on or handed out on a success path (non-NUL knowledge comes from atomic conditions, switch labels, predicate calls and constant folding of the tested expression with the byte set to 0), with the tokenizer/field-parser contracts checked at every call site; (RF5) an interval + difference-bound analysis with trace partitioning proves, by case split on bsz = 0..K-1 and bsz >= K, that each of the 35 (buf,bsz) writers stores only inside its buffer and returns at most bsz, summaries being computed bottom-up and snprintf results required to pass the clamping helper; plus orientation of remaining-space arguments, tokenizer progress, the wrap discipline of the character-class generation counter, and divisor/index ranges where they are locally decidable.",
+   note="Unknown (not locally decidable) divisor and subscript sites are listed in the evidence as notes, not findings; a site proven when the rule was calibrated (rules/tables/proven_sites.json) must stay proven. Length-bounded scanners (xmemmem, dt_io_find_strpdt*, tzm_find) are excluded from RF4 with reasons. Assumes NUL-terminated inputs and bsz writable bytes.",
+   technique="static analysis: abstract interpretation (headroom dataflow; intervals + difference bounds with trace partitioning and bottom-up summaries) over clang CFGs",
+   ref="DESIGN.md §4 C10")
+
+
 def main():
     props = [json.loads(l)["id"] for l in open(os.path.join(HERE, "properties.jsonl"))]
     checks = []
